@@ -86,6 +86,16 @@ func (dec *Decoder) readStringAsBytes(utf16Length int) (data []byte, safe bool) 
 			data = append(data, buf[:off]...)
 			return
 		}
+		if remains == 0 && utf16Length == 0 {
+			// the string ends exactly at the end of the buffered data: it is complete,
+			// do not ask for more input (which would report EOF for a finished value).
+			dec.head += off
+			if data == nil {
+				return buf[:off], false
+			}
+			data = append(data, buf[:off]...)
+			return
+		}
 		if !safe {
 			safe = true
 			data = make([]byte, 0, utf16Length*3)
